@@ -831,6 +831,21 @@ theorem export_text_rt (W : World) (t : Table) (M : Str) (hM : M ≠ []) (d : Li
   rw [heq, h2] at h1
   exact (Option.some.inj h1).symm
 
+/-- non-vacuity: the export of the example module, written and read back (an instance of `export_text_rt`), and the whole pipeline
+    export → text → read → import into the unloaded table gives the items of the original table -/
+example :
+    (match toJson Ex.W Ex.ordered (some Ex.M) with
+      | .ok d =>
+        decide (readText (writeText d) = some d) &&
+          (match readText (writeText d) with
+            | some d' =>
+              (match importJson Ex.W (Ex.ordered.unload Ex.M) d' with
+                | .ok T => decide (T.items = Ex.ordered.items)
+                | .error _ => false)
+            | none => false)
+      | .error _ => false) = true := by
+  decide +kernel
+
 /-- **Export → text → read → import, end to end**: for every Loaded table with SymOK and ViaOK, the text written for module `M`
     is read back as rows that import into the unloaded table without error, and every key has exactly its old entry again. -/
 theorem rt_text_exact (W : World) (t : Table) (M : Str) (d : List (Str × Row)) (rank : Str → Nat) (hM : M ≠ [])
